@@ -51,6 +51,7 @@ type schedEv struct {
 type Gor struct {
 	points  int  // instrumented synchronisation points passed so far
 	siteOK  bool // the current external call comes from instrumentable code
+	sitePos string
 	id      int
 	wake    chan struct{}
 	done    bool
@@ -162,6 +163,9 @@ func (e *Engine) yield(g *Gor, what string) {
 		return
 	}
 	g.points++
+	if e.pointTrace {
+		e.pointLog = append(e.pointLog, fmt.Sprintf("g%d p%d %s %s", g.id, g.points, what, g.sitePos))
+	}
 	if !e.multi {
 		return
 	}
@@ -392,6 +396,12 @@ type mutexState struct {
 	vc   vclock
 }
 
+// rwState: writer-preferring reader/writer lock. A goroutine acquires the lock
+// when it is scheduled and the lock is available ("acquire when scheduled"):
+// this covers barging as well as hand-off orders. A waiting writer blocks new
+// readers, as in Go. (Go additionally hands the lock to blocked readers at the
+// writer's Unlock; orders that differ only in that hand-off are a superset here,
+// and the native replay acquires through TryLock/TryRLock under the recorded schedule.)
 type rwState struct {
 	writer         bool
 	readers        int
